@@ -15,7 +15,8 @@ target() {
 }
 OUT=sensitivity/RESULTS.txt
 : > $OUT.tmp
-for d in sensitivity/m*${1:-}*.diff; do
+shopt -s nullglob
+for d in sensitivity/*${1:-}*.diff; do
   id=$(target "$(basename "$d")"); [ -n "$id" ] || continue
   tools/mutate.sh "$d" "$id" 2>&1 | tee -a $OUT.tmp
 done
@@ -25,5 +26,5 @@ for m in seeded/*${1:-}*/meta.json; do
   tools/mutate.sh "/tmp/seed-$(basename "$dir").diff" "$id" 2>&1 | tee -a $OUT.tmp
   rm -f "/tmp/seed-$(basename "$dir").diff"
 done
-mv $OUT.tmp $OUT
+if [ -z "${1:-}" ]; then mv $OUT.tmp $OUT; else OUT=$OUT.tmp; fi
 echo "caught: $(grep -c CAUGHT $OUT)  missed: $(grep -c missed $OUT)  other: $(grep -vc 'CAUGHT\|missed' $OUT)"
